@@ -19,18 +19,16 @@ class random_splitter:
     exhaustive), the first is non-empty for n >= 2 (it contains the first draw), both are functions of the generator
     state only (same seed, same split).  That the second half is non-empty (fewer than n draws cannot cover n
     indices: pigeonhole) is a counting argument outside the solver and is checked by the bounded run."""
-    params = dict(rng=TRng(), nmole=T.Int(lo=0))
+    params = dict(rng=TRng(), nmole=T.Int(lo=0, cands=(3, 5)))
     native_call = "_mod.random_splitter(**args)"
     native = {"lengths": "len(result[0]) == nmole and len(result[1]) == nmole",
               "complement": "bool(np.all(result[1] == ~result[0]))",
-              "first_half_non_empty": "nmole < 2 or bool(result[0].any())"}
+              "first_half_non_empty": "nmole < 2 or bool(result[0].any())",
+              "second_half_non_empty": "nmole < 2 or bool(result[1].any())"}
     ensures = {
         "lengths": "result[0].shape[0] == nmole and result[1].shape[0] == nmole",
         "complement": "forall(lambda i: iff(result[1][i], not result[0][i]), (0, nmole))",
-        "first_half_non_empty": {
-            "vars": {}, "assume": "nmole >= 2",
-            "show": "result[0][called_first_draw(rng, nmole)]",
-        },
+        "first_half_non_empty": "implies(nmole >= 2, exists(lambda i: result[0][i], (0, nmole)))",
     }
     helpers = dict(called_first_draw=lambda rng, n: rng_first(rng, n))
 
